@@ -4,7 +4,8 @@ plumbing of `Simulator.simulate_to_steady_state` / `get_result` (simulator.py) a
 default (scan.py).  Import-free executable model.
 
 The integrator (`scipy.integrate.ode`) is a parameter: `step : σ → σ` advances the state by `step_size`
-time units.  `ode.integrate` returns ITS OWN BUFFER, which the next call overwrites in place; the model makes
+time units.  The `Scipy` object around it (`t0`, `y0`, `_y0_orig`) is `Integ`: the search starts at the state the
+integrator CURRENTLY holds and, on success, moves it to the reported time and state (`continues`, read from the source).  `ode.integrate` returns ITS OWN BUFFER, which the next call overwrites in place; the model makes
 that explicit: `y1` is either a value of its own or a reference to the integrator's buffer.
 -/
 namespace Mxl.C15
